@@ -87,7 +87,8 @@ def rule_read_set(ctx):
         text = _norm(re.sub(r"--[^\n]*", "", ctx.prog.fold("step", const)))
         m = re.search(r"WITH RECURSIVE (\w+)\s*\(\s*node\s*\) AS \(", text)
         if not m:
-            raise AnalysisError(f"step.{const}: recursive CTE not found")
+            ctx.bad(f"step.{const}", "the recursion covers every product step, attached or not", "the statement no longer walks the product subtree recursively: only the step itself is visited, so suppliers (or products) deeper in a dropped sub-plan keep stale scheduling attributes")
+            continue
         depth, k = 1, m.end()
         while k < len(text) and depth:
             depth += {"(": 1, ")": -1}.get(text[k], 0)
@@ -134,6 +135,19 @@ def rule_pure_classifier(ctx):
     src = _norm(ast.unparse(nt.node))
     ctx.check("is_dir_target = raw_target.endswith(os.sep)" in src and "if is_dir_target: target_dirs.append(target_rel / '')" in src, nt.fq, "directory target iff trailing separator; stored with trailing separator", "classifier changed", "trailing separator")
     ctx.check("target_rel = target_abs.relpath(stepup_root).normpath()" in src, nt.fq, "targets are normalised root-relative like labels", "targets are spelled differently from labels", "relpath + normpath")
+    # relative targets are meant relative to where the user typed them: they are normalised before the process
+    # changes its working directory to the project root
+    ab = ctx.prog.func("tui._async_build")
+    npaths = 0
+    for tr, st in flow.paths_of(ab):
+        k_norm = [k for k, e in enumerate(tr) if e[0] == "call" and e[1] == "_normalize_targets"]
+        k_cd = [k for k, e in enumerate(tr) if e[0] == "call" and e[1].endswith(".cd")]
+        if not k_norm:
+            continue
+        npaths += 1
+        ctx.check(not k_cd or k_norm[0] < k_cd[0], ab.fq, "targets are normalised before the working directory changes", "targets are resolved after `cd` to the project root: a relative target typed in a subdirectory names another file", "before cd()", where=ctx.where_of(ab))
+    if npaths == 0:
+        raise AnalysisError("tui._async_build no longer normalises targets")
 
 
 def rule_forbidden_and_revert(ctx):
@@ -158,6 +172,7 @@ RULES = [
 ]
 
 MUTANTS = [
+    Mutant("targets-after-cd", "tui.py", in_function("_async_build", lambda s: s.replace("    targets, target_dirs = _normalize_targets(args.targets, stepup_root)\n", "", 1).replace("    _reset_stepup_dir()\n", "    targets, target_dirs = _normalize_targets(args.targets, stepup_root)\n    _reset_stepup_dir()\n", 1) if "    targets, target_dirs = _normalize_targets(args.targets, stepup_root)\n" in s and "    _reset_stepup_dir()\n" in s else None), ("R-C11-4",)),
     Mutant("edge-delete-skips-suppliers", "step.py", replace_once("    UPDATE step SET _check_after = 1\n    WHERE node IN (SELECT source FROM dependency WHERE sink = OLD.source);\n", ""), ("R-C11-2",)),
     Mutant("detached-subtree-one-level", "step.py", replace_once("        JOIN subtree ON node.creator = subtree.node\n        WHERE node.kind = 'step'\n", "        JOIN subtree ON node.creator = subtree.node\n        WHERE node.kind = 'step' AND NOT node.detached\n"), ("R-C11-2",)),
     Mutant("stale-target-default-only", "workflow.py", in_function("Workflow.reconcile_targets", replace_once('f"UPDATE step SET _check_after = 1 WHERE _implied_need = {Need.TARGET.value}"', 'f"UPDATE step SET _check_after = 1 WHERE _implied_need = {Need.TARGET.value} AND need = {Need.DEFAULT.value}"')), ("R-C11-2",)),
